@@ -36,6 +36,16 @@ Mix6Answers == {ConnLE, ConnBE, ConnShort, ConnLong, StatusR, StatusSh, ErrBare,
 CanScript   == <<C("connect"), C("get_status"), A("upload", 2)>>
 CanAnswers  == {ConnBE, StatusR, ErrP, Upl}
 
+\* quick tier: smaller scripts / answer sets
+PrimAnswersQ == {ConnLE, ConnBE, StatusR, CommR, Pos1, ErrP}
+IdScriptQ    == <<C("connect"), A("get_id", 1), A("upload", 4), A("get_id", 300), A("get_id", 0)>>
+IdAnswersQ   == {ConnLE, ConnBE, GetId1LE, GetId1BE, GetId0, ErrP}
+MixAnswersQ  == {ConnLE, ConnBE, ConnShort, StatusR}
+CanScriptQ   == <<C("connect"), C("get_status")>>
+CanAnswersQ  == {ConnBE, StatusR, ErrP}
+CovScript    == <<C("connect"), C("get_status")>>
+CovAnswers   == {ConnBE, ErrP}
+
 \* simulation (spec -> code): longer scripts, every answer
 SimScript    == <<C("connect"), C("get_status"), A("get_id", 1), C("get_comm_mode_info"), A("upload", 4), C("connect"),
                   C("get_status"), A("get_id", 0), C("disconnect")>>
